@@ -513,6 +513,8 @@ func shieldScenario(c *Chain, rng interface{ Intn(int) int }, kind int, sc Shiel
 	pa := c.Accts[prov].Addr
 	stake := cfg.ValStake[0]
 	jitter := func(x int64) int64 { return x + int64(rng.Intn(3)) - 1 }
+	// the histories in which the opening was chosen by the seed (see the caller) take the branch that needs the most to line up
+	forced := kind == 0 && c.Cfg.Seed%5 == 3 && (c.Cfg.Seed/5)%2 == 0
 	collateral := []int64{400000000, stake * 9 / 10, 250000000}[rng.Intn(3)]
 	if kind == 3 {
 		collateral = stake * 9 / 10 // most of the stake: after the slash it cannot cover the payout
@@ -574,13 +576,20 @@ func shieldScenario(c *Chain, rng interface{ Intn(int) int }, kind int, sc Shiel
 	case 0:
 		// leave less free collateral than the provider's share of the shield: the payout reaches into the queued withdrawal
 		w := jitter(collateral - shield/2)
-		if rng.Intn(2) == 0 { // two entries: the boundary of the covered shield falls inside the older one
+		two := rng.Intn(2) == 0
+		if forced {
+			two = true
+		}
+		if two { // two entries sharing one slot of the queue: the boundary of the covered shield falls inside the older one
 			withdraw(w - shield/4)
 			withdraw(shield / 4)
 		} else {
 			withdraw(w)
 		}
 		loss = []int64{shield, shield - 1, shield / 2, jitter(shield / 2)}[rng.Intn(4)]
+		if forced { // the lock must postpone BOTH entries, the payout uses up the later one and reaches into the earlier one
+			loss = shield
+		}
 	case 1:
 		withdraw(jitter(collateral - shield/2)) // old and large
 		if !c.Advance(sc.Withdraw - unit - time.Duration(rng.Intn(3))*time.Second) {
@@ -649,7 +658,7 @@ func shieldScenario(c *Chain, rng interface{ Intn(int) int }, kind int, sc Shiel
 		return false
 	}
 	opt := sdkgovtypes.OptionYes
-	if rng.Intn(5) == 0 {
+	if rng.Intn(5) == 0 && !forced {
 		opt = sdkgovtypes.OptionNo
 	}
 	for v := 0; v < cfg.NAcc; v++ {
